@@ -31,6 +31,10 @@ def conform(rep, prop, groups, profiles=('release',), prefix='s', maxlen=3000, k
     return len(shards)
 
 
+# rows in different capability states before a DF20/21 reply arrives: CA 5 heard, nothing heard (row made by DF4), CA 0 heard
+CAP_SETUPS = [lambda a: [df11(5, a)], lambda a: [short(4, enc_alt13(1000), a)], lambda a: [df11(0, a)], lambda a: [short(5, enc_squawk(1, 1, 1, 1), a)]]
+
+
 def strat13(rng, n):
     """stratified 13-bit field values: all single bits, all pairs, boundaries, random"""
     vals = {0, 8191}
@@ -54,7 +58,7 @@ def c06(tier):
     groups = []
     groups += sweep_groups(lambda v, a, r: short(5, v, a, r.getrandbits(14)), codes, OPTSETS[:3], rng)
     groups += sweep_groups(lambda v, a, r: long_(21, v, bits_of(r.getrandbits(56), 56), a, r.getrandbits(14)),
-                           codes if tier == 'thorough' else codes[::2], OPTSETS[:3], rng)
+                           codes if tier == 'thorough' else codes[::2], OPTSETS[:3], rng, setups=CAP_SETUPS)
     # every other format applied to a row that has a squawk: must not change it
     for opts in OPTSETS:
         for k in range(4 if tier == 'quick' else 40):
@@ -96,7 +100,7 @@ def c05(tier):
     groups = []
     groups += sweep_groups(lambda v, a, r: short(4, v, a, r.getrandbits(14)), c13, OPTSETS[:3], rng)
     groups += sweep_groups(lambda v, a, r: long_(20, v, bits_of(r.getrandbits(56), 56), a, r.getrandbits(14)),
-                           c13 if tier == 'thorough' else c13[::2], OPTSETS[:3], rng)
+                           c13 if tier == 'thorough' else c13[::2], OPTSETS[:3], rng, setups=CAP_SETUPS)
     for tc in tcs:
         groups += sweep_groups(lambda v, a, r: df17(5, a, me_airpos(tc, r.getrandbits(2), v, r.getrandbits(1),
                                                                     r.getrandbits(17), r.getrandbits(17))),
@@ -229,8 +233,9 @@ def valid_squitters(rng, n):
     y0, x0 = cpr_encode(48.1, 11.5, 0)
     mk = [
         lambda a: df17(5, a, me_airpos(11, 0, enc_alt12(36000), 0, y0, x0)),
-        lambda a: df17(5, a, me_ident(4, 2, callsign_codes('DLH4AB'))),
+        lambda a: df17(2, a, me_ident(4, 2, callsign_codes('DLH4AB')), df=18),
         lambda a: df11(5, a, 0),
+        lambda a: df17(5, a, me_ident(4, 2, callsign_codes('DLH4AC'))),
         lambda a: df17(5, a, me_velocity(1, 1, 120, 0, 400, 1, 15)),
         lambda a: df11(5, a, 9),
         lambda a: df17(2, a, me_ident(2, 3, callsign_codes('TUG7')), df=18),
@@ -421,6 +426,18 @@ def c04(tier):
                     if not ctx:
                         g.append(reset([]))
                 groups.append(g)
+    # a corrupted copy arriving right after the original inside the same reader run (state kept across lines):
+    # [F, F^e, G] in one run must leave the table that [F, G] leaves
+    for fr in sq:
+        nb = len(fr) * 4
+        a = int(fr[2:8], 16)
+        g_other = short(5, enc_squawk(4, 4, 4, 4), a)
+        pats = [[p] for p in range(6, nb + 1)] + [sorted(rng.sample(range(6, nb + 1), 2)) for _ in range(60 if tier == 'quick' else 600)]
+        for k, p in enumerate(pats):
+            opts = ['-U'] if k % 2 else []
+            tag = {'pair': 'c04s'}
+            groups.append([reset(opts, slot=0), reset(opts, slot=1),
+                           runn([fr, F.flip(fr, p), g_other], slot=0, tag=tag), runn([fr, g_other], slot=1, tag=tag)])
     conform(rep, 'C04', groups, maxlen=2500)
     # all burst errors up to 12 (quick) / 24 (thorough) bits through the public get_message
     binary = vlib.build_harness('release')
@@ -553,6 +570,27 @@ def c01(tier):
         for l in rng.sample(L, 12):
             g.append(runn([l, list(sentinel().encode())]))
         groups.append(g)
+    # stateful hostile sequences: position pairs (airborne and surface) at extreme latitudes, both orders, zero fields
+    aa = 0x4d3000
+    for lat in (-89.99, -88.0, -87.0, -86.6, -85.8, 0.0, 85.8, 86.6, 87.0, 88.0, 89.99):
+        for lon in (-180.0, -0.0001, 179.9999):
+            for surface in (False, True):
+                aa += 1
+                fr = {}
+                for odd in (0, 1):
+                    y, x = cpr_encode(lat, lon, odd)
+                    fr[odd] = df17(5, aa, me_surface(7, 10, 1, 5, odd, y or 1, x or 1)) if surface else \
+                        df17(5, aa, me_airpos(11, 0, enc_alt12(1000), odd, y or 1, x or 1))
+                for order in ((0, 1), (1, 0)):
+                    for opts in ([], ['-U']):
+                        groups.append([reset(opts), runn([fr[order[0]], fr[order[1]], fr[order[0]], list(sentinel().encode())])])
+    for k in range(10, 19):
+        for o in ('-d', '-u'):
+            for sgn in ('', '-'):
+                v = sgn + str(10 ** k + 12345)
+                g = [{'c': 'reset', 'opts': ['-i', 'Q', '%s=%s' % (o, v)], 'slot': 0}]
+                g.append(runn(mixed + mixed[:5] + [list(sentinel().encode())]))
+                groups.append(g)
     conform(rep, 'C01', groups, profiles=('checked', 'release'), maxlen=1500)
     # (b) the real CLI binaries on files of hostile lines each followed by a sentinel
     events = []
@@ -723,6 +761,16 @@ def c10(tier):
             for mb in mbs:
                 g.append(run1(long_(20, enc_alt13(32000), mb, a)))
             groups.append(g)
+    firsts = [mb20(callsign_codes('FIRST1')), mb30(1, 0), mb30(0, 1), mb17(1, 1, 1, 1), mb40(2000, 2001, 2132), mb50(40, 300, 220, 5, 215),
+              mb50(-40, 300, 220, -5, 215), mb60(500, 280, 190, -20, -21), pack([(0x10, 8), (0, 48)])]
+    for opts in OPTSETS:
+        for j, mb in enumerate(firsts):
+            for dfn in (20, 21):
+                a = 0x3cf000 + j * 4 + dfn
+                # first contact is the data reply itself; then a second copy; then capability; then again
+                groups.append([reset(opts), run1(long_(dfn, enc_alt13(5000) if dfn == 20 else enc_squawk(1, 0, 0, 1), mb, a)),
+                               run1(long_(dfn, enc_alt13(5025) if dfn == 20 else enc_squawk(1, 0, 0, 2), mb, a)),
+                               run1(df11(0, a)), run1(long_(dfn, 16, mb, a)), run1(df11(5, a)), run1(long_(dfn, 16, mb, a))])
     conform(rep, 'C10', groups, maxlen=2500)
     rep.rule = ('DF20/DF21 replies whose MB is generated from physical values (roll +-50, track 0..360, rate +-16, GS/TAS to their limits '
                 'and across |GS-TAS|=200, heading, IAS, Mach to 1.0, rates +-6000, selected altitude, QNH 800..1210), boundary values of '
@@ -963,6 +1011,22 @@ def c11(tier):
             else:
                 g.append(run1(rng.choice(pool)))
         groups.append(g)
+    # segmentation invariance: one line per reader run vs the whole history in one run
+    nseg = 10 if tier == 'quick' else 300
+    for h in range(nseg):
+        opts = OPTSETS[h % 4]
+        acs = [0x4a8000 + rng.getrandbits(10) for _ in range(1 + h % 3)]
+        if h % 2:
+            acs.append((acs[0] & 0xfff000) | ((acs[0] + 0x400) & 0xfff))     # a neighbour in the same 4096-address page
+        pool = []
+        for a in acs:
+            pool += other_format_frames(a, rng) + valid_value_frames(a, rng)
+        lines = [rng.choice(pool) for _ in range(rng.randrange(5, 40))]
+        for j in range(len(lines) - 1):
+            if rng.random() < 0.15:
+                lines[j + 1] = lines[j]
+        g = [reset(opts, slot=0), reset(opts, slot=1)] + [run1(l, slot=0) for l in lines] + [runn(lines, slot=1, tag={'pair': 'seg'})]
+        groups.append(g)
     conform(rep, 'C11', groups, maxlen=4000)
     rep.rule = ('(i) every transition of the bounded history model (TLC, depth %d, 24-frame alphabet, 2 aircraft, ticks 9 s / 11 s, -R on/off) '
                 'replayed through the real reader under {none,-U} x {-R}, as a prefix-tree walk with save/restore: one reader run per model '
@@ -1132,9 +1196,11 @@ def c16(tier):
     dfs = [4, 5, 11, 17, 20, 21]
     subsets = [list(c) for r_ in range(0, 7) for c in itertools.combinations(dfs, r_)]
     if tier == 'quick':
-        subsets = [[], [17], [4, 5], [11, 17, 20], [21], [0, 16], [18], [4, 5, 11, 17, 20, 21], [99], [5, 17]]
+        subsets = [[], [17], [4, 5], [11, 17, 20], [21], [0, 16], [18], [4, 5, 11, 17, 20, 21], [99], [5, 17],
+                   [21, 4], [21, 17, 4], [20, 5, 0], [17, 17], [5, 4, 21, 20]]
     else:
         subsets += [[0], [16], [18], [0, 16, 18], [99], [17, 99]]
+        subsets += [list(reversed(x)) for x in subsets if len(x) > 1] + [[21, 4, 17], [20, 5, 0], [17, 17], [5, 21, 4, 20]]
     # (a) the bounded model: counters = number of applied frames per DF, filtered frames change nothing
     for filt in ('NoFilt', 'F17', 'F4_5'):
         model_and_scenarios(rep, 'MC_hist', HIST_CFG.replace('Filt <- NoFilt', 'Filt <- ' + filt) % ('FALSE', 3),
@@ -1386,6 +1452,22 @@ def c15(tier):
                 r['dist'] = rng.choice(vals['dist']); r['cat'] = rng.choice(vals['cat'])
                 rows.append(r)
             cases.append({'id': len(cases), 'i': rng.choice(['', 'aAews', 'e']), 'o': o, 'rows': rows})
+    cats = [[0, 0], [1, 0], [2, 1], [2, 7], [3, 1], [3, 6], [3, 7], [4, 0], [4, 3], [4, 7]]
+    for t in range(6 if tier == 'quick' else 60):
+        rows = []
+        for a in rng.sample(range(1, 0xFFFFFF), rng.randrange(4, 9)):
+            r = blank_row(a); r['cat'] = rng.choice(cats); r['sq'] = rng.choice(vals['sq']); rows.append(r)
+        cases.append({'id': len(cases), 'i': 'e', 'o': rng.choice(['c', 'sc', 'Ac', 'c']), 'rows': rows})
+    for o in 'vVNSWEdD':
+        for t in range(3 if tier == 'quick' else 20):
+            rows = []
+            for a in rng.sample(range(1, 0xFFFFFF), rng.randrange(4, 9)):
+                r = blank_row(a)
+                r['vr'] = [64 * rng.randrange(-40, 41)] if rng.random() < .8 else []
+                r['lat'] = 10 * rng.randrange(-8000000, 8000000); r['lon'] = 10 * rng.randrange(-17000000, 17000000)
+                r['dist'] = [100 * rng.randrange(0, 9000)] if rng.random() < .8 else []
+                rows.append(r)
+            cases.append({'id': len(cases), 'i': '', 'o': o, 'rows': rows})
     events = run_print(binary, cases, 'c15')
     for e in cli_table_events(rng, 4 if tier == 'quick' else 60, ['sA', 'N', 'a', 'dV', '', 'W', 'v', 'c', 'A', 'zz']):
         e['i'] = len(events) + 1
@@ -1497,6 +1579,9 @@ def junk_lines(rng):
          list(good[:14].encode()), list(('%012X' % 5 + good[:13]).encode()), [0xFF] + list(good[:10].encode()),
          list(good.encode())[:20] + [0x80, 0x81], [0xEF, 0xBB, 0xBF], list(b'0123456789ABCDEF' * 4200)]
     J.append([rng.choice(b'0123456789abcdefXYZ \t*;') for _ in range(66000)])
+    # lengths around buffer sizes (line + newline filling a power-of-two window exactly)
+    for n in (1022, 1023, 1024, 4095, 4096, 8190, 8191, 8192, 8193, 16383, 16384, 32767, 65534, 65535, 65536, 65537, 131071):
+        J.append([rng.choice(b'ghijklmnopqrstuvwxyz *;') for _ in range(n)])
     return J
 
 
@@ -1540,10 +1625,16 @@ def c13(tier):
         else:
             pos = sorted(rng.sample(range(len(clean) + 1), min(len(clean) + 1, rng.randrange(1, 6))), reverse=True)
         for p_ in sorted(pos, reverse=True):
-            j = rng.choice(J[:-2]) if rng.random() < 0.97 else rng.choice(J[-2:])
+            j = rng.choice(J[:24]) if rng.random() < 0.8 else rng.choice(J[24:])
             dirty.insert(p_, j)
         tag = {'pair': 'c13'}
         groups.append([reset(opts, slot=0), reset(opts, slot=1), runn(dirty, slot=0, tag=tag), runn(clean, slot=1, tag=tag)])
+    good_lines = [list(l.encode()) for l in other_format_frames(0x4ca111, rng)[:6]]
+    for j in J[24:]:
+        clean = good_lines[:3]
+        dirty = [clean[0], j, clean[1], j, clean[2]]
+        tag = {'pair': 'c13'}
+        groups.append([reset([], slot=0), reset([], slot=1), runn(dirty, slot=0, tag=tag), runn(clean, slot=1, tag=tag)])
     conform(rep, 'C13', groups, maxlen=400)
     rep.rule = ('%d stream pairs: a valid stream (shuffled generated frames of 1..3 aircraft, or a slice of rec/squitters.txt) and the same '
                 'stream with junk lines inserted (empty, NUL, 0x80-0xFF, truncated UTF-8, lone CR, blanks, text, truncated / over-long / '
@@ -1586,7 +1677,7 @@ def c19(tier):
     groups = []
     rec = recorded_lines('squitters.txt', 3000 if tier == 'quick' else 30000)
     pres = [('i', ['-i', 'aAews']), ('i', ['-i', 'e']), ('i', ['-i', 'Q', '-i', 'w']), ('o', ['-o', 'N']), ('o', ['-o', 'dV']), ('c', ['-c']),
-            ('u', ['-u', '0']), ('u', ['--update=-1']), ('u', ['-u', '1000']), ('M', ['-M', '17', '-M', '4']),
+            ('u', ['-u', '0']), ('u', ['--update=-1']), ('u', ['-u', '1000']), ('u', ['-u', '100']), ('u', ['-u', '61']), ('M', ['-M', '17', '-M', '4']),
             ('D', ['-D', os.path.join(wd, 'downlink.log')])]
     nrep = 2 if tier == 'quick' else 30
     for rep_i in range(nrep):
@@ -1608,6 +1699,14 @@ def c19(tier):
                 if rng.random() < 0.05:
                     g.append(tick(rng.choice([3000, 9000, 11000])))
             groups.append(g)
+        for name, extra in pres:
+            base = rng.choice([[], ['-U']])
+            st = rng.randrange(0, len(rec) - 200)
+            lines = rec[st:st + rng.randrange(40, 150)]
+            tag = {'pair': 'c19', 'opt': name + '.run'}
+            groups.append([{'c': 'reset', 'opts': ['-i', 'Q'] + base, 'slot': 0},
+                           {'c': 'reset', 'opts': (['-i', 'Q'] if name != 'i' else []) + base + extra, 'slot': 1},
+                           runn(lines, slot=0, tag=tag), runn(lines, slot=1, tag=tag)])
         # -O affects the distance only
         for obs in ('90,0', '10.5, -20.25', 'garbage'):
             lines = valid_value_frames(0x4b2000 + rep_i, rng)
